@@ -55,6 +55,14 @@ def main():
                 vio = [l for l in out.splitlines() if l.startswith("VIOLATION")]
                 res[pid] = dict(exit=rc, violation_lines=vio, wall_s=round(time.time() - t0, 1),
                                 tail=out.splitlines()[-6:])
+            def infra(r):
+                t = "\n".join(r["tail"])
+                return ("extraction failed" in t or "driver build failed" in t or "Cannot find a physical path" in t) and \
+                    all("no-failing-input-found" in v for v in r["violation_lines"])
+            if any(infra(r) for r in res.values()):
+                results[i] = dict(status="infra-rerun", property=meta["property"], checks=res)
+                print(i, "INFRA (concurrent build?) - rerun")
+                continue
             caught = any(r["exit"] == 1 and r["violation_lines"] for r in res.values())
             results[i] = dict(status="caught" if caught else "MISSED", property=meta["property"], checks=res,
                               summary=meta.get("summary", ""))
